@@ -8,6 +8,78 @@ from . import speccheck
 PROP = "C05"
 
 
+def ties_stream(v, findings):
+    """window functions over *duplicated* order keys: which of the tied rows comes first is unspecified, but every row gets its
+    own position and its own running total - row_number is a permutation of the positions of the tie group, cum_sum the
+    running sums of the tied values in some order - on each backend by itself (no cross-backend comparison)"""
+    import itertools
+    import random
+
+    import polars as pl
+    import pydiverse.transform as pdt
+    import sqlalchemy as sqa
+
+    rng = random.Random(v.seed)
+    problems, n = [], 0
+    for case in range(12):
+        nrows = rng.choice([5, 6, 8])
+        df = pl.DataFrame({
+            "id": list(range(nrows)),
+            "g": [rng.choice([1, 1, 2]) for _ in range(nrows)],
+            "k": [rng.choice([1, 1, 2, 2, 3]) for _ in range(nrows)],
+            "x": [rng.choice([1, 2, 5, 10, 20]) for _ in range(nrows)],
+        })
+        eng = sqa.create_engine("sqlite://")
+        df.write_database("ties", eng)
+        part = rng.random() < 0.6
+        desc = rng.random() < 0.4
+        for be, mk in (("polars", lambda: pdt.Table(df, name="ties")), ("sqlite", lambda: pdt.Table("ties", pdt.SqlAlchemy(eng)))):
+            t = mk()
+            key = t.k.descending() if desc else t.k
+            kw = dict(arrange=[key])
+            if part:
+                kw["partition_by"] = [t.g]
+            try:
+                out = (t >> pdt.mutate(cs=t.x.cum_sum(**kw), rn=pdt.row_number(**kw)) >> pdt.arrange(t.id) >> pdt.export(pdt.Polars())).to_dicts()
+            except Exception as e:  # noqa: BLE001
+                problems.append(dict(kind="window_ties_error", backend=be, exc=type(e).__name__, msg=str(e)[:150]))
+                continue
+            n += 1
+            parts = {}
+            for row in out:
+                parts.setdefault(row["g"] if part else 0, []).append(row)
+            for pk, rows in parts.items():
+                rows.sort(key=lambda r_: (-r_["k"] if desc else r_["k"]))
+                pos, total = 0, 0
+                for kv, grp in itertools.groupby(rows, key=lambda r_: r_["k"]):
+                    grp = list(grp)
+                    want_rn = set(range(pos + 1, pos + len(grp) + 1))
+                    if {r_["rn"] for r_ in grp} != want_rn:
+                        problems.append(dict(kind="row_number_under_ties", backend=be, partition=pk, key=kv, got=sorted(r_["rn"] for r_ in grp), expected=sorted(want_rn),
+                                             table=df.to_dicts(), partitioned=part, descending=desc))
+                    ok = False
+                    got = sorted(r_["cs"] for r_ in grp)
+                    for perm in itertools.permutations([r_["x"] for r_ in grp]):
+                        acc, sums = total, []
+                        for xv in perm:
+                            acc += xv
+                            sums.append(acc)
+                        if sorted(sums) == got:
+                            ok = True
+                            break
+                    if not ok and len(grp) <= 6:
+                        problems.append(dict(kind="cum_sum_under_ties", backend=be, partition=pk, key=kv, got=got, tied_values=[r_["x"] for r_ in grp], before=total,
+                                             table=df.to_dicts(), partitioned=part, descending=desc))
+                    pos += len(grp)
+                    total += sum(r_["x"] for r_ in grp)
+    groups = {}
+    for d in problems:
+        groups.setdefault((d["kind"], d["backend"]), []).append(d)
+    for key, items in groups.items():
+        v.violation("ties-" + "-".join(key), dict(kind=key[0], backend=key[1], n_cases=len(items), cases=items[:4], how="harness/c05.py:ties_stream"))
+    return len(problems), dict(window_tie_frames=n)
+
+
 def run(tier, seed):
-    return speccheck.run(PROP, tier, seed, ["window", "window", "rowlevel", "subquery", "window", "general", "tall", "scen_window_nulls"], 300, 10000, also=("C01", "C08"),
-                         assumptions=["window functions are generated with a total arrange= order (section 4 of DESIGN.md: results under ties are unspecified)", "Polars rank-based emulation of descending / nulls_last inside over() is covered by comparison, not by a theorem"])
+    return speccheck.run(PROP, tier, seed, ["window", "window", "rowlevel", "subquery", "window", "general", "tall", "scen_window_nulls"], 300, 10000, also=("C01", "C08"), extra_stream=ties_stream,
+                         assumptions=["in the generated programs window functions get a total arrange= order (results under ties are unspecified); duplicated order keys are covered by the ties stream (each row its own position / running total, per backend)", "Polars rank-based emulation of descending / nulls_last inside over() is covered by comparison, not by a theorem"])
